@@ -249,6 +249,18 @@ def gen_cases(ctx, tier):
     ncov = len(cases)
     # (4) boundary: batches of readers behind a writer; writers behind readers; many fibers
     nb = 0
+    # large reader batches: a writer holds, 70 / 90 readers announce and enqueue, the writer releases:
+    # the release must admit ALL of them in one CAS and wake exactly that many
+    for nt in ((71,) if tier == "quick" else (71, 91)):
+        for v in range(2):
+            progs = [LU(WR)] + [LU(RD) for _ in range(nt - 1)]
+            sched = [0] * 4
+            order = list(range(1, nt))
+            rng.shuffle(order)
+            for t in order:
+                sched += [t] * (16 if v == 0 else rng.randint(2, 16))
+            sched += [0] * 12
+            cases.append(core.fmt_case([30000], progs, sched)); nb += 1
     for nt in (4, 6, 9, 12, 16):
         for v in range(6 if tier == "quick" else 30):
             progs = [LU(WR)] + [LU(rng.choice([RD, RD, RD, WR])) for _ in range(nt - 1)]
